@@ -414,3 +414,59 @@ def rawrecords_all_or_nothing(crate, N=3):
 
     _check_paths(ex, res, outs, per_path)
     return P.finish(ex, res, ["two or more records", "torn tail after valid records", "empty blob", "data audit failed"])
+
+
+def rawrecords_tiles_file(crate, N=2):
+    """C06: RawRecords::load + read_current_record against a file of arbitrary size: an Ok result means the records
+    returned tile [first record, end of file) exactly — every returned header's meta and data bytes lie inside the
+    file.  A blob whose last record is torn anywhere (header, meta or data; data validation on or off) is therefore
+    rejected by the scan (and goes to quarantine) instead of being indexed with a record that cannot be read and whose
+    declared extent later writes would land in.  File reads: Ok implies the whole range is inside the file
+    (read_exact semantics); any read may fail."""
+    res = P.ObResult("rawrecords_tiles_file[N<=%d]" % N)
+    fn = crate.method("RawRecords", "load")
+    res.functions = ["RawRecords::load (async body)", "RawRecords::read_current_record (async body)", "File::size",
+                     "RecordHeader::{meta_size,data_size}"]
+    res.bounds = "<= %d records before the end of file (loop unwound %d times, deeper paths dropped), arbitrary file size / cursor / header sizes (< 2^40), data validation on and off" % (N, N + 1)
+    ex = P.mk_executor(crate, cap=N + 3, loop_bound=N + 1, inline=[x for x in INLINE_REC if x not in (r"^RawRecords::", r"^Entry::")] + [r"^RawRecords::(load|read_current_record)$"],
+                       extra_summaries=BYTES_SUMMARIES)
+    ex.unwind_assume = True
+    ex.call_hook = _hdr_from_raw_hook(crate)
+    st = State()
+    rr, cur, rhs, vd, size = _raw_records_state(crate, ex, st)
+    st.pc.append(z3.ULT(size, BV64(1 << 40)))
+    rc = st.new_cell(rr)
+    coi = crate.field_index("RawRecords", "current_offset")
+    inner = file_read_hook()
+
+    def hook(ex_, st_, name, fargs, out_ty, dty):
+        out = inner(ex_, st_, name, fargs, out_ty, dty)
+        if out is None:
+            return None
+        ev = st_.events[-1]
+        b = ev[3].fields[("Ok", 0)]
+        okk = ex_.get_discr(st_, ev[3]).t == BV64(0)
+        st_.pc.append(z3.Implies(okk, z3.ULE(b.fields[("g", "off")].t + b.fields[("g", "len")].t, size)))
+        return out
+    ex.await_hook = hook
+    outs = P.drive_async(ex, st, fn, [rr])
+    res.paths = len(outs)
+
+    def per_path(o, isok, payload):
+        evs = P.events_of(o)
+        parses = [x for x in evs if x[0] == "call" and x[1] == "Header::from_raw"]
+        # the cursor after the scan: the coroutine owns `self`; recompute it from the parsed headers
+        end = cur
+        for x in parses:
+            h = x[3].fields[("Ok", 0)]
+            end = end + rhs + P.hdrl(crate, ex, o, h, "meta_size") + P.hdrl(crate, ex, o, h, "data_size")
+        if not P.prove(ex, res, o, z3.Implies(z3.And(isok, z3.ULE(cur, size)), end == size),
+                       "Ok => the scanned records end exactly at the end of the file (no record extends past EOF)"):
+            return False
+        P.cover(ex, res, o, z3.And(isok, z3.BoolVal(len(parses) >= 2), z3.Not(vd)), "two records, validation off")
+        P.cover(ex, res, o, z3.And(isok, z3.BoolVal(len(parses) >= 1), vd), "record accepted with validation on")
+        P.cover(ex, res, o, z3.And(z3.Not(isok), z3.BoolVal(len(parses) >= 2)), "rejected after a complete record")
+        return True
+
+    _check_paths(ex, res, outs, per_path)
+    return P.finish(ex, res, ["two records, validation off", "record accepted with validation on", "rejected after a complete record"])
